@@ -112,14 +112,19 @@ def r2_positions(chk: Check):
     ok = len(tries) == 1 and tries[0].finalbody and any(isinstance(s, ast.Assign) and src(s.targets[0]) == "self._configpath" for s in tries[0].finalbody)
     chk.require(ok, chk.fkey(pu, "position restored in finally"), "push must restore the previous position in a `finally` (an exception in a sub-tree must not shift the positions of its siblings)", chk.loc(pu.module, pu.node))
     inner = [s for s in st if not (tries and any(s in list(ast.walk(x)) for x in tries[0].finalbody))]
-    ok = len(inner) == 1 and src(inner[0].value) in (f"(Path('out') if p is None else p) / {kp}",)
-    if ok:
-        gp = CFG(pu.node)
-        rdp = ReachingDefs(gp)
+    gp = CFG(pu.node)
+    rdp = ReachingDefs(gp)
+    forms = set()
+    ok = bool(inner)
+    for st_ in inner:
         for nn in gp.live:
-            if nn.kind == "stmt" and nn.ast is inner[0]:
+            if nn.kind == "stmt" and nn.ast is st_:
+                gs = tuple(sorted((src(t.ast), pol) for t, pol in gp.guards(nn) if t.kind == "test" and src(t.ast) == "p is None"))
+                forms.add((gs, src(st_.value)))
                 ds = rdp.defs_at(kp, nn)
-                ok = len(ds) == 1 and next(iter(ds)).kind == "param"
+                ok = ok and len(ds) == 1 and next(iter(ds)).kind == "param"
+    ok = ok and forms in ({((), f"(Path('out') if p is None else p) / {kp}")},
+                          {((("p is None", True),), f"Path('out') / {kp}"), ((("p is None", False),), f"p / {kp}")})
     chk.require(ok, chk.fkey(pu, "position = parent / key"),
                 f"push sets the position to `{src(inner[0].value) if inner else '?'}`; it must be <parent position> / <key> with the key unchanged (a key reduced or normalised "
                 "maps two sibling keys to one folder: two generated paths collide)", chk.loc(pu.module, pu.node))
